@@ -21,6 +21,9 @@ Open Scope Z_scope.
 
 Set Implicit Arguments.
 
+(* the line feed, for string literals of the Go source that contain one *)
+Definition nl : string := String (Ascii.ascii_of_nat 10) EmptyString.
+
 (* arguments of calls that leave the translated code *)
 Inductive arg :=
 | AInt (z : Z)
